@@ -3675,6 +3675,8 @@ class CacheDataset(Dataset):
             item = self.keys().index(item)
 
         if isinstance(item, numbers.Integral):
+            # np.int64(2) and 2 are different keys for diskcache.
+            item = int(item)
             if item < 0 and item + len(self) >= 0:
                 # ds[-1] and ds[len(ds) - 1] are the same example.
                 item = item + len(self)
